@@ -8,6 +8,7 @@ import (
 	"log"
 	logslog "log/slog"
 	"os"
+	"os/exec"
 	"strconv"
 	"strings"
 	"time"
@@ -18,7 +19,8 @@ import (
 
 // "adapter" (property C15): executes behaviours of spec/Adapter.tla on the real library -
 // NewSlogHandler, Handler.WithAttrs/WithGroup/Enabled/Handle through a real log/slog.Logger,
-// Entry.Log, NewLogLogger + log.Logger - on recording writers, decodes every record that reached
+// Entry.Log, NewLogLogger + log.Logger, RegisterLevel (in a child process per behaviour: the
+// registry is process-wide) - on recording writers, decodes every record that reached
 // a writer with decoders that do not use the library (own JSON-ish / logfmt / SGR scanners,
 // encoding/json, strconv, time.Parse) and logs one line per call for spec/AdapterTrace.tla.
 // Nothing is judged here: the verdicts are TLC's.
@@ -27,6 +29,7 @@ type adLeaf struct {
 	P []string `json:"p"` // path of keys, groups outermost first, the leaf's key last
 	K string   `json:"k"` // value kind
 	V int      `json:"v"` // value id
+	O []int    `json:"o"` // ordinals: position of the ancestor at each depth in its list (same length as P)
 }
 
 type adShape struct {
@@ -56,6 +59,12 @@ type adEvent struct {
 	Sev    int    `json:"sev"`
 	F      string `json:"f"`
 	Direct bool   `json:"direct"`
+	// Register: RegisterLevel(Val, Title, options)
+	Val   int      `json:"val"`
+	Title string   `json:"title"`
+	Treat int      `json:"treat"` // 12 = RegWithTreatedAsLevel not given
+	Err   bool     `json:"err"`   // RegWithPrintToErrorDevice()
+	Tags  []string `json:"tags"`  // empty, or the 6 short tags (index = length)
 }
 
 type adScript struct {
@@ -67,6 +76,7 @@ type adScript struct {
 	HMsgs       [][]int     `json:"hmsgs"`
 	BMsgs       [][]int     `json:"bmsgs"`
 	Behaviours  [][]adEvent `json:"behaviours"`
+	Child       bool        `json:"child"` // this process was started for one behaviour that registers levels
 }
 
 type adObsLeaf struct {
@@ -124,8 +134,32 @@ func adMain(args []string) int {
 			}
 		}
 	}
+	// The level registry is process-wide and cannot be undone: a behaviour that registers levels
+	// runs in a process of its own (a child running this same command on a one-behaviour script),
+	// its trace is spliced in at its place.  "Proc" tells the monitor that a new process starts.
+	kids := map[int]*adpChild{}
+	if !sc.Child {
+		kids = adpStartChildren(&sc, args)
+	}
 	saved := slog.GetFlags()
-	for _, beh := range sc.Behaviours {
+	out.emit(map[string]any{"op": "Proc"})
+	for bi, beh := range sc.Behaviours {
+		if k, ok := kids[bi]; ok {
+			if err := <-k.done; err != nil {
+				fmt.Fprintf(os.Stderr, "adapter: child process for behaviour %d failed: %v\n%s\n", bi, err, k.stderr.String())
+				return 3
+			}
+			b, err := os.ReadFile(k.trace)
+			if err != nil {
+				fmt.Fprintf(os.Stderr, "adapter: child trace of behaviour %d: %v\n", bi, err)
+				return 3
+			}
+			out.bw.Write(b)
+			os.Remove(k.trace)
+			os.Remove(k.script)
+			out.emit(map[string]any{"op": "Proc"}) // back in this process, which never registers anything
+			continue
+		}
 		r.reset()
 		out.emit(map[string]any{"op": "Reset"})
 		for _, ev := range beh {
@@ -134,6 +168,53 @@ func adMain(args []string) int {
 	}
 	slog.SetFlags(saved)
 	return 0
+}
+
+type adpChild struct {
+	script, trace string
+	stderr        strings.Builder
+	done          chan error
+}
+
+func adpRegisters(beh []adEvent) bool {
+	for _, ev := range beh {
+		if ev.Op == "Register" {
+			return true
+		}
+	}
+	return false
+}
+
+// adpStartChildren launches (at most 8 at a time) one child process per behaviour that registers levels.
+func adpStartChildren(sc *adScript, args []string) map[int]*adpChild {
+	kids := map[int]*adpChild{}
+	sem := make(chan struct{}, 8)
+	for bi, beh := range sc.Behaviours {
+		if !adpRegisters(beh) {
+			continue
+		}
+		k := &adpChild{script: fmt.Sprintf("%s.child%d.json", args[1], bi), trace: fmt.Sprintf("%s.child%d.ndjson", args[1], bi), done: make(chan error, 1)}
+		kids[bi] = k
+		one := *sc
+		one.Behaviours = [][]adEvent{beh}
+		one.Child = true
+		b, err := json.Marshal(&one)
+		if err != nil {
+			panic(err)
+		}
+		if err := os.WriteFile(k.script, b, 0o644); err != nil {
+			panic(err)
+		}
+		go func(k *adpChild) {
+			sem <- struct{}{}
+			defer func() { <-sem }()
+			// same binary name and the same trailing -test.* arguments: the child is in the same process mode
+			cmd := exec.Command(os.Args[0], append([]string{"adapter", k.script, k.trace}, args[2:]...)...)
+			cmd.Stderr = &k.stderr
+			k.done <- cmd.Run()
+		}(k)
+	}
+	return kids
 }
 
 func (r *adRun) reset() {
@@ -239,6 +320,8 @@ func (r *adRun) leafAttr(key string, lf adLeaf) logslog.Attr {
 }
 
 // buildAttrs turns the flattened leaves back into nested log/slog attributes.
+// Leaves of one group INSTANCE share key and ordinal at that depth: two groups with the same key
+// in one list stay two attributes, equal keys stay in the order given.
 func (r *adRun) buildAttrs(leaves []adLeaf, valuers map[string]bool, prefix []string) []logslog.Attr {
 	d := len(prefix)
 	var res []logslog.Attr
@@ -249,13 +332,14 @@ func (r *adRun) buildAttrs(leaves []adLeaf, valuers map[string]bool, prefix []st
 			res = append(res, r.leafAttr(key, lf))
 			continue
 		}
-		if done[key] {
+		inst := fmt.Sprintf("%s#%d", key, lf.O[d])
+		if done[inst] {
 			continue
 		}
-		done[key] = true
+		done[inst] = true
 		var sub []adLeaf
 		for _, x := range leaves {
-			if len(x.P) > d+1 && x.P[d] == key {
+			if len(x.P) > d+1 && x.P[d] == key && x.O[d] == lf.O[d] {
 				sub = append(sub, x)
 			}
 		}
@@ -384,6 +468,33 @@ func (r *adRun) exec(ev adEvent) (rec map[string]any) {
 		t0 := time.Now()
 		r.logger.Log(ctx, logslog.Level(ev.V), string(adBytes(r.sc.HMsgs[ev.Mi-1])))
 		rec["recs"] = r.takeRecs(t0, time.Now())
+	case "Register":
+		rec["val"], rec["treat"], rec["err"], rec["title"] = ev.Val, ev.Treat, ev.Err, ev.Title
+		var opts []slog.RegOpt
+		tag3 := ev.Title
+		if len(tag3) > 3 {
+			tag3 = tag3[:3]
+		}
+		if len(ev.Tags) == 6 {
+			var tags [6]string
+			copy(tags[:], ev.Tags)
+			opts = append(opts, slog.RegWithShortTags(tags))
+			tag3 = ev.Tags[3]
+		}
+		if ev.Treat != 12 {
+			opts = append(opts, slog.RegWithTreatedAsLevel(slog.Level(ev.Treat)))
+		}
+		if ev.Err {
+			opts = append(opts, slog.RegWithPrintToErrorDevice())
+		}
+		if err := slog.RegisterLevel(slog.Level(ev.Val), ev.Title, opts...); err != nil {
+			// not this property's business (C17): the behaviour cannot be executed as written
+			fmt.Fprintf(os.Stderr, "adapter: RegisterLevel(%d, %q) refused: %v\n", ev.Val, ev.Title, err)
+			os.Exit(3)
+		}
+		// how the new level is printed, known from the registration itself (not asked from the library)
+		r.lvlNames[ev.Title] = ev.Val
+		r.lvlTags[tag3] = ev.Val
 	case "NewBridge":
 		rec["L"], rec["sev"], rec["f"] = ev.L, ev.Sev, ev.F
 		r.logger = r.newLogger(ev.L)
